@@ -66,9 +66,20 @@ func generate(prog *ssa.Program, db *ContractDB, fn *ssa.Function, fc *FuncContr
 		rep.GenMs = time.Since(t0).Milliseconds()
 	}()
 	// axioms
+	for _, o := range fc.Opaque {
+		c.opaque[o] = true
+	}
 	for _, ax := range db.axioms {
 		if ax.Lemma {
-			continue
+			used := false
+			for _, u := range fc.Use {
+				if u == ax.Name {
+					used = true
+				}
+			}
+			if !used {
+				continue
+			}
 		}
 		t, err := c.axiomTerm(ax)
 		if err != nil {
@@ -76,6 +87,18 @@ func generate(prog *ssa.Program, db *ContractDB, fn *ssa.Function, fc *FuncContr
 			return
 		}
 		c.assume(t, false)
+	}
+	for _, u := range fc.Use {
+		found := false
+		for _, ax := range db.axioms {
+			if ax.Lemma && ax.Name == u {
+				found = true
+			}
+		}
+		if !found {
+			rep.Error = "use: unknown lemma " + u
+			return
+		}
 	}
 	f := c.newFrame(fn, nil)
 	rep.Loops = len(f.headers)
